@@ -137,6 +137,16 @@ func (e *Executor) traverse(rt RequestTask) error {
 			// tell the loader we're online now
 			rt.ReconciledLoader.SetRemoteOnline(true)
 
+			// a cancel that was processed before we went online has already
+			// taken the loader offline once and will not do so again: waiting
+			// for remote data now would wait forever
+			select {
+			case <-rt.Ctx.Done():
+				rt.ReconciledLoader.SetRemoteOnline(false)
+				return ipldutil.ContextCancelError{}
+			default:
+			}
+
 			if err := e.startRemoteRequest(rt); err != nil {
 				return err
 			}
